@@ -98,11 +98,17 @@ func fullConfig(tp *simkit.Tape, prop string) fullCfg {
 			c.Sizer = []string{"requests", "items"}[tp.Draw(2)]
 		} else {
 			c.Sizer = "items"
+			if c.Batch == "queue" && tp.Chance(1, 3) {
+				c.Sizer = "bytes"
+			}
 		}
 	}
-	if c.Sizer == "requests" {
+	switch c.Sizer {
+	case "requests":
 		c.Cap = int64(tp.Range(1, 6))
-	} else {
+	case "bytes":
+		c.Cap = int64(tp.Range(400, 3000))
+	default:
 		c.Cap = int64(tp.Range(6, 40))
 	}
 	c.Consumers = tp.Range(1, 3)
@@ -113,6 +119,13 @@ func fullConfig(tp *simkit.Tape, prop string) fullCfg {
 		hi := c.Max
 		if hi == 0 {
 			hi = 10
+		}
+		if c.Sizer == "bytes" {
+			c.Max = int64([]int{0, tp.Range(120, 700)}[tp.Weighted(1, 3)])
+			hi = c.Max
+			if hi == 0 {
+				hi = 600
+			}
 		}
 		c.Min = int64(tp.Draw(int(hi) + 1))
 		c.FlushS = tp.Range(1, 8)
@@ -137,6 +150,9 @@ func (s *fullSim) build(inc *Incarnation) (simExporter, error) {
 	sizer := exporterhelper.RequestSizerTypeRequests
 	if cfg.Sizer == "items" {
 		sizer = exporterhelper.RequestSizerTypeItems
+	}
+	if cfg.Sizer == "bytes" {
+		sizer = exporterhelper.RequestSizerTypeBytes
 	}
 	qc := exporterhelper.NewDefaultQueueConfig()
 	qc.Sizer = sizer
@@ -318,6 +334,9 @@ func (s *fullSim) answerChoices(ch *[]simkit.Choice) {
 
 func (s *fullSim) offer() {
 	sh := gen.Shape{MaxResources: 2, MaxScopes: 2, MaxMetrics: 2, MaxItems: 3}
+	if s.cfg.Sizer == "bytes" && s.r.Tape.Chance(1, 8) {
+		sh.Oversize = 800 // one item larger than any max_size: it leaves alone
+	}
 	payload := s.ad.gen(s.r.Tape, s.ids, sh)
 	q := &fullReq{n: len(s.reqs) + 1, items: s.ad.items(payload)}
 	s.reqs = append(s.reqs, q)
